@@ -9,6 +9,7 @@ import RsModel.Lemmas.ReplayMap
 import RsModel.Lemmas.ColdStrip
 import RsModel.Lemmas.WarmTree
 import RsModel.Lemmas.WarmMap
+import RsModel.Lemmas.HistoryAnswers
 /-!
 # C10 — CachedSource is transparent for every call history
 -/
@@ -336,5 +337,48 @@ theorem c10_map_twice (s : Src) (σ : Store) (h : s.ModeHypC) (hk : s.CachedOK) 
     (attrFrom (decode sm2.mappings) startPos s.src).map (Option.map (resolveMF sm2))
       = (attrFrom (decode sm1.mappings) startPos s.src).map (Option.map (resolveMF sm1)) :=
   getMap_twice s σ h hk hs hn hc f1 f2 hsmall1 hsmall2 sm1 sm2 h1 h2
+
+/-! ## every call history -/
+
+/-- **every call of every history** (any length, options in any order): `s` is any tree with no CachedSource beneath a
+ReplaceSource (`Src.NoCR` — beneath one, K5), distinct caches, cold at the start.  `runCalls s calls σ` threads the store through
+the streaming calls `calls` (a `get_map` is the text-less streaming call followed by the encoder).  The `k`-th call returns the
+stream of the cache-free tree (`Src.strip`) if its options did not occur earlier in the history, and otherwise the stream of the
+replay tree for its options (`Src.warm o`: every outermost CachedSource replays the map the first call with `o` stored) — always
+one of the same two answers per option, whatever was called in between.  Invariant `HistInv`: the store is warm for the options
+used so far and cold for the others; a call with options `o` reads and writes only entries keyed by `o`
+(`Src.stream_store_opts`). -/
+theorem c10_every_history (s : Src) (hk : s.NoCR) (hn : s.ids.Nodup) (σ : Store) (hc : Cold σ s.ids) (calls : List Opts) :
+    ∀ k o, calls[k]? = some o → (runCalls s calls σ).1[k]? = some (answerOf s (calls.take k) o) :=
+  runCalls_results s hk hn σ hc calls
+
+/-- **… and what they answer, streams** (columns = true, normal mode): every such stream of every history delivers the text of
+`source()` and resolves every byte to the same file name, original line, original column and name as the cache-free tree. -/
+theorem c10_every_history_stream (s : Src) (hk : s.NoCR) (hn : s.ids.Nodup) (σ : Store) (hc : Cold σ s.ids) (h : s.WarmHyp) (hw : s.WF)
+    (calls : List Opts) (k : Nat) (hcall : calls[k]? = some ⟨true, false⟩) :
+    ∃ r, (runCalls s calls σ).1[k]? = some r ∧ NA r.evs = NA (s.strip.stream ⟨true, false⟩ []).1.evs ∧ evsText r.evs = s.src := by
+  obtain ⟨r, h1, h2⟩ := history_stream_NA s hk hn σ hc h calls k hcall
+  obtain ⟨σ', h3⟩ := runCalls_is_stream s calls σ k _ hcall
+  rw [h1] at h3
+  simp only [Option.some.injEq] at h3
+  exact ⟨r, h1, h2, by rw [h3]; exact Src.stream_text s true σ' hw⟩
+
+/-- **… and maps** (columns = true): the map built from every text-less stream of every history — what every `get_map` of the
+history returns — resolves every byte of `source()`, through its own `sources` / `names` tables, to the same file name, original
+line, original column and name as the cache-free tree's stream. -/
+theorem c10_every_history_map (s : Src) (hk : s.NoCR) (hn : s.ids.Nodup) (σ : Store) (hc : Cold σ s.ids) (h : s.ModeHypC) (hs : s.SmallF)
+    (hsmall1 : ∀ m ∈ chunkMs (s.strip.stream ⟨true, true⟩ []).1.evs, m.small)
+    (hsmall2 : ∀ m ∈ chunkMs ((s.warm ⟨true, true⟩).stream ⟨true, true⟩ []).1.evs, m.small)
+    (calls : List Opts) (k : Nat) (hcall : calls[k]? = some ⟨true, true⟩) :
+    ∃ r, (runCalls s calls σ).1[k]? = some r ∧ ∀ sm, mapOfEvs true r.evs = some sm →
+      (attrFrom (decode sm.mappings) startPos s.src).map (Option.map (resolveMF sm)) = NA (s.strip.stream ⟨true, false⟩ []).1.evs :=
+  history_map_NA s hk hn σ hc h hs hsmall1 hsmall2 calls k hcall
+
+/-- non-vacuity: the tree of `c10_warm_tree`'s example has no CachedSource beneath a ReplaceSource, and a five-call history on it
+in mixed options returns five results -/
+example : (Src.concat (.cons (.cached 0 (.orig [97, 59, 98] [102])) (.cons (.rawStr [120]) .nil))).NoCR
+    ∧ (runCalls (Src.concat (.cons (.cached 0 (.orig [97, 59, 98] [102])) (.cons (.rawStr [120]) .nil)))
+        [⟨true, false⟩, ⟨true, true⟩, ⟨false, false⟩, ⟨true, false⟩, ⟨true, true⟩] []).1.length = 5 := by
+  refine ⟨by simp [Src.NoCR, SrcList.NoCRs], by decide⟩
 
 end Rs
